@@ -131,3 +131,22 @@ Definition linear_extension (tasks : list N) (precs : list (N * N)) (L : list N)
 
 Definition between_subtasks (tasks : list N) (precs : list (N * N)) : Prop :=
   forall a b, In (a, b) precs -> In a tasks /\ In b tasks.
+
+(* ---------------- the callers in task_network.py ----------------
+   A constraint of the network either mentions a timing (`_time_checker.any(c)`) or is static;
+   temporal_constraints() keeps the former, in insertion order. *)
+Inductive ncons :=
+| NTemporal (c : tcons)
+| NStatic.
+
+Fixpoint temporal_constraints (cs : list ncons) : list tcons :=
+  match cs with
+  | [] => []
+  | NTemporal c :: cs' => c :: temporal_constraints cs'
+  | NStatic :: cs' => temporal_constraints cs'
+  end.
+
+Definition tn_partial_order (subtasks : list N) (constraints : list ncons) : option (list (N * N)) :=
+  partial_order subtasks (temporal_constraints constraints).
+Definition tn_total_order (subtasks : list N) (constraints : list ncons) : option (list N) :=
+  total_order subtasks (temporal_constraints constraints).
